@@ -3,8 +3,10 @@
 //
 //	cnc <eco n|m|p> <start s|t> <ops per goroutine: op,op;op,…>
 //	  eco    npm / Maven / PyPI            start  s = all goroutines released together, t = staggered (goroutine i waits i·300 µs)
-//	  op     V<pkg> Versions   v<pkg>:<ver> Version   R<pkg>:<ver> Requirements   M<pkg>:<req hex> MatchingVersions
-//	reply: conc=<per goroutine results> seq=<the same ops, one goroutine, fresh client> same=<1|0 all goroutines ended up with ONE client>
+//	  eco    also x = a system the client does not support, M = Maven with an unparsable default registry, N = npm with an unreadable project .npmrc
+//	         (creation of the ecosystem's client fails: every call must fail the same way, from every goroutine, every time)
+//	  op     V<pkg> Versions   v<pkg>:<ver> Version   R<pkg>:<ver> Requirements   M<pkg>:<req hex> MatchingVersions   A AddRegistries (a mirror of the default registry)
+//	reply: conc=<per goroutine results> seq=<the same ops, one goroutine, fresh client> same=<1|0 all goroutines ended up with ONE client> got=<1|0 they have a client at all>
 //	       hits=<max number of requests for one URL during the concurrent run>
 //
 // A fresh CombinedNativeClient per run; the registries are one in-process httptest server (no network): PyPI simple index + JSON
@@ -27,6 +29,7 @@ import (
 	"time"
 
 	"deps.dev/util/resolve"
+	"github.com/google/osv-scalibr/clients/datasource"
 	"github.com/google/osv-scalibr/clients/resolution"
 
 	"verif/harness/hx"
@@ -38,7 +41,13 @@ type registry struct {
 	hits  map[string]int
 	first atomic.Bool
 	dir   string // npm project dir with the .npmrc
+	badDir string
 }
+
+// cncSharedRegistryList: also run the cases in which the goroutines share a Maven registry list with spare capacity (three
+// registries added up front) or one goroutine adds a registry while the others query. On a tree where
+// datasource.MavenRegistryAPIClient does not guard its registry list these are data races (finding C16/maven-registry-list).
+const cncSharedRegistryList = false
 
 var cncVersions = []string{"1.0.0", "1.1.0", "2.0.0"}
 
@@ -64,9 +73,9 @@ func newRegistry() *registry {
 				vs = append(vs, fmt.Sprintf(`%q:{"dependencies":{"dep-of-%s":"^%s"}}`, v, p[1], v))
 			}
 			fmt.Fprintf(w, `{"name":%q,"dist-tags":{"latest":"2.0.0"},"versions":{%s}}`, p[1], strings.Join(vs, ","))
-		case len(p) == 4 && p[0] == "maven" && p[3] == "maven-metadata.xml":
+		case len(p) == 4 && (p[0] == "maven" || p[0] == "maven2") && p[3] == "maven-metadata.xml":
 			fmt.Fprintf(w, `<metadata><groupId>%s</groupId><artifactId>%s</artifactId><versioning><latest>2.0.0</latest><release>2.0.0</release><versions><version>1.0.0</version><version>1.1.0</version><version>2.0.0</version></versions></versioning></metadata>`, p[1], p[2])
-		case len(p) == 5 && p[0] == "maven" && strings.HasSuffix(p[4], ".pom"):
+		case len(p) == 5 && (p[0] == "maven" || p[0] == "maven2") && strings.HasSuffix(p[4], ".pom"):
 			fmt.Fprintf(w, `<project><modelVersion>4.0.0</modelVersion><groupId>%s</groupId><artifactId>%s</artifactId><version>%s</version><dependencies><dependency><groupId>%s</groupId><artifactId>dep-of-%s</artifactId><version>%s</version></dependency></dependencies></project>`, p[1], p[2], p[3], p[1], p[2], p[3])
 		default:
 			http.NotFound(w, q)
@@ -78,6 +87,8 @@ func newRegistry() *registry {
 	}
 	r.dir = dir
 	os.WriteFile(filepath.Join(dir, ".npmrc"), []byte("registry="+r.srv.URL+"/npm/\n"), 0o644)
+	r.badDir = filepath.Join(dir, "bad")
+	os.MkdirAll(filepath.Join(r.badDir, ".npmrc"), 0o755)
 	return r
 }
 
@@ -102,8 +113,15 @@ func (r *registry) maxHits() int {
 	return m
 }
 
-func (r *registry) client() *resolution.CombinedNativeClient {
-	cl, err := resolution.NewCombinedNativeClient(resolution.CombinedNativeClientOptions{ProjectDir: r.dir, MavenRegistry: r.srv.URL + "/maven", PyPIRegistry: r.srv.URL + "/pypi"})
+func (r *registry) client(eco string) *resolution.CombinedNativeClient {
+	o := resolution.CombinedNativeClientOptions{ProjectDir: r.dir, MavenRegistry: r.srv.URL + "/maven", PyPIRegistry: r.srv.URL + "/pypi"}
+	switch eco {
+	case "M":
+		o.MavenRegistry = "http://[::1" // url.Parse fails: NewMavenRegistryClient returns an error
+	case "N":
+		o.ProjectDir = r.badDir // .npmrc is a directory
+	}
+	cl, err := resolution.NewCombinedNativeClient(o)
 	if err != nil {
 		panic(err)
 	}
@@ -112,16 +130,18 @@ func (r *registry) client() *resolution.CombinedNativeClient {
 
 func cncSys(eco string) resolve.System {
 	switch eco {
-	case "m":
+	case "m", "M":
 		return resolve.Maven
 	case "p":
 		return resolve.PyPI
+	case "x":
+		return resolve.UnknownSystem
 	}
 	return resolve.NPM
 }
 
 func cncPkg(eco, p string) string {
-	if eco == "m" {
+	if eco == "m" || eco == "M" {
 		return "g:" + p
 	}
 	return p
@@ -136,10 +156,24 @@ func showVersions(vs []resolve.Version) string {
 }
 
 // doOp runs one operation and renders its result canonically.
-func doOp(cl resolve.Client, eco, op string) string {
+func doOp(cl *resolution.CombinedNativeClient, regURL, eco, op string) string {
 	ctx := context.Background()
 	sys := cncSys(eco)
 	kind, rest := op[0], op[1:]
+	if kind == 'A' {
+		n := 1
+		if rest != "" {
+			n = int(rest[0] - '0')
+		}
+		var regs []resolution.Registry
+		for i := 0; i < n; i++ {
+			regs = append(regs, datasource.MavenRegistry{URL: regURL + "/maven2", ID: fmt.Sprintf("mirror%d", i), ReleasesEnabled: true})
+		}
+		if err := cl.AddRegistries(regs); err != nil {
+			return "err"
+		}
+		return "added"
+	}
 	pkg, arg, _ := strings.Cut(rest, ":")
 	pk := resolve.PackageKey{System: sys, Name: cncPkg(eco, pkg)}
 	switch kind {
@@ -178,20 +212,32 @@ func doOp(cl resolve.Client, eco, op string) string {
 
 func runCNC(r *registry, eco string, staggered bool, ops [][]string) string {
 	return hx.Guard(func() string {
+		// a group written !op,op,… is run on the shared client BEFORE the goroutines start (set-up, e.g. registries added while reading the manifest)
+		var pre []string
+		if len(ops) > 0 && len(ops[0]) > 0 && strings.HasPrefix(ops[0][0], "!") {
+			pre = append([]string{ops[0][0][1:]}, ops[0][1:]...)
+			ops = ops[1:]
+		}
 		// the specification: the same operations, one goroutine, a fresh client
 		r.reset()
-		seqCl := r.client()
+		seqCl := r.client(eco)
+		for _, op := range pre {
+			doOp(seqCl, r.srv.URL, eco, op)
+		}
 		seq := make([]string, len(ops))
 		for i, os_ := range ops {
 			var rs []string
 			for _, op := range os_ {
-				rs = append(rs, doOp(seqCl, eco, op))
+				rs = append(rs, doOp(seqCl, r.srv.URL, eco, op))
 			}
 			seq[i] = strings.Join(rs, ",")
 		}
 		// concurrently, on another fresh client
 		r.reset()
-		cl := r.client()
+		cl := r.client(eco)
+		for _, op := range pre {
+			doOp(cl, r.srv.URL, eco, op)
+		}
 		conc := make([]string, len(ops))
 		ids := make([]string, len(ops))
 		start := make(chan struct{})
@@ -206,7 +252,7 @@ func runCNC(r *registry, eco string, staggered bool, ops [][]string) string {
 				}
 				var rs []string
 				for _, op := range ops[i] {
-					rs = append(rs, doOp(cl, eco, op))
+					rs = append(rs, doOp(cl, r.srv.URL, eco, op))
 				}
 				conc[i] = strings.Join(rs, ",")
 				ids[i] = cl.VerifClientID(cncSys(eco))
@@ -214,13 +260,13 @@ func runCNC(r *registry, eco string, staggered bool, ops [][]string) string {
 		}
 		close(start)
 		wg.Wait()
-		same := true
+		same := true // every goroutine ended up with the one client of the ecosystem — or, when its creation fails, with none
 		for _, id := range ids {
-			if id == "" || id != ids[0] {
+			if id != ids[0] {
 				same = false
 			}
 		}
-		return fmt.Sprintf("conc=%s seq=%s same=%s hits=%d", hx.Hex(strings.Join(conc, ";")), hx.Hex(strings.Join(seq, ";")), hx.B(same), r.maxHits())
+		return fmt.Sprintf("conc=%s seq=%s same=%s got=%s hits=%d", hx.Hex(strings.Join(conc, ";")), hx.Hex(strings.Join(seq, ";")), hx.B(same), hx.B(ids[0] != ""), r.maxHits())
 	})
 }
 
@@ -238,6 +284,36 @@ func cncStream(reps int, out *hx.Out) {
 	r := newRegistry()
 	defer r.close()
 	req := map[string]string{"n": hx.Hex("^1.0.0"), "m": hx.Hex("[1.0.0,2.0.0)"), "p": hx.Hex(">=1.1")}
+	// creation of the ecosystem's client fails, or the system is unknown: the error branches of every delegating method
+	for _, eco := range []string{"x", "M", "N"} {
+		for _, st := range []string{"s", "t"} {
+			ops := "Va,Ra:1.0.0;va:1.0.0,Ma:" + hx.Hex("^1.0.0") + ";Va,Vb"
+			if eco == "M" {
+				ops += ";A,Va"
+			}
+			c := fmt.Sprintf("cnc %s %s %s", eco, st, ops)
+			fmt.Fprintln(os.Stderr, "@case "+c)
+			eco2, stag, o := parseCNC(c)
+			out.Emit(c, runCNC(r, eco2, stag, o))
+			out.Flush()
+		}
+	}
+	// AddRegistries (mirrors of the default registry: the answers do not depend on which registry serves them). "!A<n>" adds n
+	// registries BEFORE the goroutines start — what reading a pom.xml with <repositories> does before the patch attempts run
+	// concurrently; a bare "A" adds one while the other goroutines are querying.
+	regCases := []string{"!A1;Va;Va,Vb", "!A2;Va,Ra:1.0.0;Vb,Ma:" + req["m"] + ";Va,Vb"}
+	if cncSharedRegistryList {
+		regCases = append(regCases, "!A3;Va,Ra:1.0.0;Va,Vb;Vb,Ma:"+req["m"]+";Va", "A,Va,Ra:1.0.0;Va,Rb:2.0.0", "A,A,Vb;Va,va:1.1.0;Ra:2.0.0,Va")
+	}
+	for _, st := range []string{"s", "t"} {
+		for _, ops := range regCases {
+			c := fmt.Sprintf("cnc m %s %s", st, ops)
+			fmt.Fprintln(os.Stderr, "@case "+c)
+			eco2, stag, o := parseCNC(c)
+			out.Emit(c, runCNC(r, eco2, stag, o))
+			out.Flush()
+		}
+	}
 	for _, eco := range []string{"p", "n", "m"} {
 		menu := []string{"Va", "Ra:1.0.0", "va:1.1.0", "Ma:" + req[eco], "Vb", "Rb:2.0.0", "Ra:2.0.0"}
 		for n := 2; n <= 4; n++ {
